@@ -150,6 +150,20 @@ theorem rotPlanar_isStabFace_of_mem (Lx Ly Lz : Nat) (s : Loc) (hs : s ∈ rotPl
   have : (rotPlanarStabs Lx Ly Lz).contains s = true := List.contains_iff_mem.mpr hs
   simp only [Lattice.isStabFace, rotPlanar3D, this, Bool.true_and]
 
+/-! ### `stabilizer_type` of both rotated codes -/
+
+theorem rotIsFace_vertex (a b c : Int) (pc : c % 2 = 1) (h4 : (a + b) % 4 = 2) :
+    rotIsFace (a, b, c) = false := by
+  simp only [rotIsFace, xyMod4, h4, pc, beq_self_eq_true, Bool.and_self, Bool.not_true]
+
+theorem rotIsFace_hface (a b c : Int) (h4 : (a + b) % 4 = 0) : rotIsFace (a, b, c) = true := by
+  have e02 : ((0 : Int) == 2) = false := by decide
+  simp only [rotIsFace, xyMod4, h4, e02, Bool.false_and, Bool.not_false]
+
+theorem rotIsFace_vface (a b c : Int) (pc : c % 2 = 0) : rotIsFace (a, b, c) = true := by
+  have e01 : ((0 : Int) == 1) = false := by decide
+  simp only [rotIsFace, pc, e01, Bool.and_false, Bool.not_false]
+
 /-! ### the branch taken by `flip_edge` -/
 
 private theorem int_beq_false {a b : Int} (h : a ≠ b) : (a == b) = false := by
